@@ -153,11 +153,17 @@ func (s *Stream) Token() (interface{}, error) {
 			bytes := floatBytes(s)
 			str := *(*string)(unsafe.Pointer(&bytes))
 			if s.UseNumber {
+				if !isValidNumberToken(bytes) {
+					return nil, errors.ErrSyntax(invalidNumberLiteral, s.totalOffset())
+				}
 				return json.Number(str), nil
 			}
 			f64, err := strconv.ParseFloat(str, 64)
 			if err != nil {
 				return nil, err
+			}
+			if !isValidNumberToken(bytes) {
+				return nil, errors.ErrSyntax(invalidNumberLiteral, s.totalOffset())
 			}
 			return f64, nil
 		case '"':
@@ -440,6 +446,7 @@ func (s *Stream) skipValue(depth int64) error {
 				}
 			}
 		case '-', '0', '1', '2', '3', '4', '5', '6', '7', '8', '9':
+			start := cursor
 			for {
 				cursor++
 				c := char(p, cursor)
@@ -452,6 +459,9 @@ func (s *Stream) skipValue(depth int64) error {
 					}
 				}
 				s.cursor = cursor
+				if !isValidNumberToken(s.buf[start:cursor]) {
+					return errors.ErrSyntax(invalidNumberLiteral, s.totalOffset())
+				}
 				return nil
 			}
 		case 't':
